@@ -11,9 +11,9 @@ import (
 )
 
 var specC10 = report.Spec{Property: "C10", Check: "C10",
-	Rule: "feature streams of length 0-200 (most below 40), each feature of a random geometry type (point, multipoint, linestring, multilinestring, collection, polygon, multipolygon with 1-4 parts) with a unique attribute tuple (int, float, string, nil); 1-5 targets with arbitrary distinct tile matrix ids; " +
+	Rule: "feature streams of length 0-200 (most below 40; 1 in 200 with 1100-2600 features, thorough 6000), 1-5 targets (1 in 15 cases 6-16), optionally one early polygon whose snapping takes 30 ms (a straggler), each feature of a random geometry type (point, multipoint, linestring, multilinestring, collection, polygon, multipolygon with 1-4 parts) with a unique attribute tuple (int, float, string, nil); 1-5 targets with arbitrary distinct tile matrix ids; " +
 		"a generated outcome table for the fake snapping function: per (polygon part, target) absent / one polygon / 2-3 polygons, never an empty list (the caller's contract); a generated plan of yields and sleeps in source, snapping function and targets; GOMAXPROCS in {1,2,4,16}; the stream is cut into 1-3 tables and ProcessFeatures is called once per table with the same target objects, like main.go does. " +
-		"Oracle: a sequential reference model computes per target the expected list of (attributes, geometry, tile matrix id); fake targets record what they receive; exact sequence equality (count, order, attribute identity, geometry deep equality, tile matrix id of every delivered feature = the target's id); ProcessFeatures returns and leaves no goroutine. " +
+		"Oracle: a sequential reference model computes per target the expected list of (attributes, geometry, tile matrix id); fake targets record what they receive, keep the delivered objects and read them again when their channel closes (a delivered feature must not change afterwards); exact sequence equality (count, order, attribute identity, geometry deep equality, tile matrix id of every delivered feature = the target's id); ProcessFeatures returns and leaves no goroutine. " +
 		"Non-trivial: >= 2 targets, some polygon feature dropped for one target and kept for another, and some feature split into several polygons. Distinct by case content.",
 	Assumptions: []string{"the snapping function is a fake with marker geometries; the real one is covered by C13", "a run that does not return within 10 s is re-run in a fresh process with 60 s before it counts"}}
 
@@ -21,6 +21,9 @@ func drawFeats(t *rapid.T, nTargets int, maxFeats int) []FeatSpec {
 	n := rapid.IntRange(0, maxFeats).Draw(t, "features")
 	if rapid.IntRange(0, 9).Draw(t, "long") == 0 {
 		n = rapid.IntRange(0, report.Scale(200, 600)).Draw(t, "featuresLong")
+	}
+	if rapid.IntRange(0, 49).Draw(t, "huge") == 23 { // thousands of features: buffers, pools and reorder windows fill up
+		n = rapid.IntRange(1100, report.Scale(2600, 6000)).Draw(t, "featuresHuge")
 	}
 	feats := make([]FeatSpec, n)
 	for i := range feats {
@@ -47,6 +50,9 @@ func drawFeats(t *rapid.T, nTargets int, maxFeats int) []FeatSpec {
 
 func drawTargets(t *rapid.T) []int {
 	n := rapid.IntRange(1, 5).Draw(t, "targets")
+	if rapid.IntRange(0, 14).Draw(t, "manyTargets") == 7 {
+		n = rapid.IntRange(6, 16).Draw(t, "nManyTargets")
+	}
 	seen := map[int]bool{}
 	var ids []int
 	for len(ids) < n {
@@ -67,7 +73,27 @@ func genC10(t *rapid.T) PipeCase {
 	c.Procs = rapid.SampledFrom([]int{1, 2, 4, 16}).Draw(t, "procs")
 	c.SlowFin = rapid.SliceOfN(rapid.Bool(), len(c.Targets), len(c.Targets)).Draw(t, "slowfin")
 	c.Breaks = drawBreaks(t, len(c.Feats))
+	c.SlowFeat = drawStraggler(t, c.Feats)
+	if len(c.Feats) > 1000 { // the huge class: several CPUs, and usually one table so that everything is in flight at once
+		c.Procs = rapid.SampledFrom([]int{4, 16}).Draw(t, "procsHuge")
+		if rapid.IntRange(0, 3).Draw(t, "oneTable") > 0 {
+			c.Breaks = nil
+		}
+	}
 	return c
+}
+
+// drawStraggler picks (sometimes) an early polygon feature whose snapping is slow, so that later features overtake it inside the pipeline if they can.
+func drawStraggler(t *rapid.T, feats []FeatSpec) int {
+	if len(feats) == 0 || rapid.IntRange(0, 3).Draw(t, "straggler") != 2 {
+		return 0
+	}
+	for i, f := range feats[:min(len(feats), 8)] {
+		if f.Kind == "polygon" || f.Kind == "multipolygon" {
+			return i + 1
+		}
+	}
+	return 0
 }
 
 // drawBreaks cuts the stream into 1-3 tables.
@@ -115,6 +141,15 @@ func oracleC10(c PipeCase) (o report.Outcome) {
 	defer runtime.GOMAXPROCS(old)
 	o.Label("targets=%d", len(c.Targets))
 	o.Label("procs=%d", c.Procs)
+	switch {
+	case len(c.Feats) > 1000:
+		o.Label("features>1000")
+	case len(c.Feats) > 100:
+		o.Label("features>100")
+	}
+	if c.SlowFeat > 0 {
+		o.Label("straggler")
+	}
 	o.NonTrivial = pipeNonTrivial(c)
 	r := buildRun(c)
 	r.start()
